@@ -96,6 +96,10 @@ func NewExec(w *World) *Exec {
 	d.Fun("strlen", []string{"Str"}, "Int")
 	d.Axiom("strlen.nonneg", "(forall ((s Str)) (! (>= (strlen s) 0) :pattern ((strlen s))))")
 	d.Axiom("strcat.len", "(forall ((a Str) (b Str)) (! (= (strlen (strcat a b)) (+ (strlen a) (strlen b))) :pattern ((strcat a b))))")
+	// slice element position: sidx(off, k) = off + k, kept behind a function
+	// symbol so that quantified facts about xs[k] have an arithmetic-free trigger
+	d.Fun("sidx", []string{"Int", "Int"}, "Int")
+	d.Axiom("sidx.def", "(forall ((o Int) (k Int)) (! (= (sidx o k) (+ o k)) :pattern ((sidx o k))))")
 	d.Fun("gomod", []string{"Int", "Int"}, "Int")
 	d.Axiom("gomod.small", "(forall ((a Int) (m Int)) (! (=> (and (<= 0 a) (< a m)) (= (gomod a m) a)) :pattern ((gomod a m))))")
 	d.Axiom("gomod.wrap", "(forall ((a Int) (m Int)) (! (=> (and (<= m a) (< a (* 2 m))) (= (gomod a m) (- a m))) :pattern ((gomod a m))))")
